@@ -160,7 +160,8 @@ pub fn gen_callgraph(rng: &mut Rng) -> (Case, usize) {
             plans[r].recursive = true;
             plans[r].calls.clear();
         }
-        let calc = match rng.below(10) {
+        let calc = match rng.below(11) {
+            10 => CalcSpec::Const(*rng.pick(&[16u16, 24, 120, 127, 128, 129, 136, 200, 248, 255, 264, 504])),
             0 => CalcSpec::Const(0),
             1 => CalcSpec::Const(8),
             2 => CalcSpec::Const(64),
